@@ -101,23 +101,23 @@ QSum(s) == QSumTo(s, Len(s))
 (***************************************************************************)
 (* vectors (sequences of rationals) and matrices (sequences of rows)       *)
 (***************************************************************************)
-IV(v) == [i \in 1..Len(v) |-> QI(v[i])]                   \* integer vector
-HV(v) == [i \in 1..Len(v) |-> QMk(v[i], 2)]               \* numerators over 2
-VAdd(u, v) == [i \in 1..Len(u) |-> QAdd(u[i], v[i])]
-VSub(u, v) == [i \in 1..Len(u) |-> QSub(u[i], v[i])]
-VScale(c, u) == [i \in 1..Len(u) |-> QMul(c, u[i])]
-VNeg(u) == [i \in 1..Len(u) |-> QNeg(u[i])]
-VDot(u, v) == QSum([i \in 1..Len(u) |-> QMul(u[i], v[i])])
-VZero(n) == [i \in 1..n |-> QZero]
-GmUnit(n, d) == [i \in 1..n |-> IF i = d THEN QOne ELSE QZero]
-MCol(A, j) == [i \in 1..Len(A) |-> A[i][j]]
-MT(A, nc) == [j \in 1..nc |-> MCol(A, j)]                  \* transpose of a matrix with nc columns
-MMul(A, B, nc) == [i \in 1..Len(A) |-> [j \in 1..nc |-> VDot(A[i], MCol(B, j))]]    \* B has nc columns
-MVec(A, v) == [i \in 1..Len(A) |-> VDot(A[i], v)]
+IV(v) == TLCEval([i \in 1..Len(v) |-> QI(v[i])])                   \* integer vector
+HV(v) == TLCEval([i \in 1..Len(v) |-> QMk(v[i], 2)])               \* numerators over 2
+VAdd(u, v) == TLCEval([i \in 1..Len(u) |-> QAdd(u[i], v[i])])
+VSub(u, v) == TLCEval([i \in 1..Len(u) |-> QSub(u[i], v[i])])
+VScale(c, u) == TLCEval([i \in 1..Len(u) |-> QMul(c, u[i])])
+VNeg(u) == TLCEval([i \in 1..Len(u) |-> QNeg(u[i])])
+VDot(u, v) == QSum(TLCEval([i \in 1..Len(u) |-> QMul(u[i], v[i])]))
+VZero(n) == TLCEval([i \in 1..n |-> QZero])
+GmUnit(n, d) == TLCEval([i \in 1..n |-> IF i = d THEN QOne ELSE QZero])
+MCol(A, j) == TLCEval([i \in 1..Len(A) |-> A[i][j]])
+MT(A, nc) == TLCEval([j \in 1..nc |-> MCol(A, j)])                  \* transpose of a matrix with nc columns
+MMul(A, B, nc) == TLCEval([i \in 1..Len(A) |-> TLCEval([j \in 1..nc |-> VDot(A[i], MCol(B, j))])])    \* B has nc columns
+MVec(A, v) == TLCEval([i \in 1..Len(A) |-> VDot(A[i], v)])
 \* linear combination sum_k c[k] cols[k] of vectors of length n
-LinComb(c, cols, n) == [i \in 1..n |-> QSum([k \in 1..Len(c) |-> QMul(c[k], cols[k][i])])]
+LinComb(c, cols, n) == TLCEval([i \in 1..n |-> QSum(TLCEval([k \in 1..Len(c) |-> QMul(c[k], cols[k][i])]))])
 \* matrix (rows) whose columns are the given vectors of length n
-FromCols(cols, n) == [i \in 1..n |-> [k \in 1..Len(cols) |-> cols[k][i]]]
+FromCols(cols, n) == TLCEval([i \in 1..n |-> TLCEval([k \in 1..Len(cols) |-> cols[k][i]])])
 
 GmOthers(n, i) == IF n = 2 THEN <<3 - i>> ELSE IF i = 1 THEN <<2, 3>> ELSE IF i = 2 THEN <<1, 3>> ELSE <<1, 2>>
 QMinor(A, i, j) == LET n == Len(A)
@@ -127,16 +127,16 @@ QMinor(A, i, j) == LET n == Len(A)
                       ELSE IF n = 2 THEN A[r[1]][c[1]]
                       ELSE QSub(QMul(A[r[1]][c[1]], A[r[2]][c[2]]), QMul(A[r[1]][c[2]], A[r[2]][c[1]]))
 QCof(A, i, j) == IF (i + j) % 2 = 0 THEN QMinor(A, i, j) ELSE QNeg(QMinor(A, i, j))
-QDet(A) == IF Len(A) = 0 THEN QOne ELSE QSum([j \in 1..Len(A) |-> QMul(A[1][j], QCof(A, 1, j))])
+QDet(A) == IF Len(A) = 0 THEN QOne ELSE QSum(TLCEval([j \in 1..Len(A) |-> QMul(A[1][j], QCof(A, 1, j))]))
 \* inverse through the adjugate (n <= 3)
 QInv(A) == LET d == QDet(A)
-           IN [i \in 1..Len(A) |-> [j \in 1..Len(A) |->
-                 QDiv(IF GmMutant = "inv-transpose" THEN QCof(A, i, j) ELSE QCof(A, j, i), d)]]
+           IN TLCEval([i \in 1..Len(A) |-> TLCEval([j \in 1..Len(A) |->
+                 QDiv(IF GmMutant = "inv-transpose" THEN QCof(A, i, j) ELSE QCof(A, j, i), d)])])
 \* generalised cross product of the n - 1 columns of the n x (n-1) matrix A: orthogonal to all of them,
 \* det [A | c] = c . c, |c|^2 = det(A^T A)
 Cross(A) == LET n == Len(A)
-                AZ == [i \in 1..n |-> A[i] \o <<QZero>>]
-            IN [i \in 1..n |-> QCof(AZ, i, n)]
+                AZ == TLCEval([i \in 1..n |-> A[i] \o <<QZero>>])
+            IN TLCEval([i \in 1..n |-> QCof(AZ, i, n)])
 \* Gram matrix A^T A of a matrix with nc columns
 Gram(A, nc) == MMul(MT(A, nc), A, nc)
 \* u = c v with c > 0
@@ -151,9 +151,9 @@ TermVal(t, x) == LET n == Len(x)
                      b == IF n >= 2 THEN QPow(x[2], t[3]) ELSE QOne
                      c == IF n >= 3 THEN QPow(x[3], t[4]) ELSE QOne
                  IN QMul(QI(t[1]), QMul(a, QMul(b, c)))
-PEval(P, x) == QSum([k \in 1..Len(P) |-> TermVal(P[k], x)])
+PEval(P, x) == QSum(TLCEval([k \in 1..Len(P) |-> TermVal(P[k], x)]))
 PDiff(P, i) == LET S == SelectSeq(P, LAMBDA t : t[i + 1] > 0)
-               IN [k \in 1..Len(S) |-> [S[k] EXCEPT ![1] = S[k][1] * S[k][i + 1], ![i + 1] = S[k][i + 1] - 1]]
+               IN TLCEval([k \in 1..Len(S) |-> [S[k] EXCEPT ![1] = S[k][1] * S[k][i + 1], ![i + 1] = S[k][i + 1] - 1]])
 GmMax(a, b) == IF a > b THEN a ELSE b
 RECURSIVE PDegTo(_, _)
 PDegTo(P, k) == IF k = 0 THEN 0 ELSE GmMax(P[k][2] + P[k][3] + P[k][4], PDegTo(P, k - 1))
@@ -300,7 +300,7 @@ MkElem(rt, o, E) == [ref |-> rt, o |-> o, E |-> E]       \* x0 = o + sum xi_k E[
 Box1(a, b) == MkElem("L", IV(<<a>>), <<IV(<<b - a>>)>>)
 Box2(a, b) == MkElem("S", IV(a), <<IV(<<b[1] - a[1], 0>>), IV(<<0, b[2] - a[2]>>)>>)
 Box3(a, b) == MkElem("C", IV(a), <<IV(<<b[1] - a[1], 0, 0>>), IV(<<0, b[2] - a[2], 0>>), IV(<<0, 0, b[3] - a[3]>>)>>)
-Simplex(rt, vs) == MkElem(rt, IV(vs[1]), [k \in 1..(Len(vs) - 1) |-> VSub(IV(vs[k + 1]), IV(vs[1]))])
+Simplex(rt, vs) == MkElem(rt, IV(vs[1]), TLCEval([k \in 1..(Len(vs) - 1) |-> VSub(IV(vs[k + 1]), IV(vs[1]))]))
 BaseElems(name) ==
     CASE name = "line" -> {Box1(0, 1), Box1(1, 3)}                                       \* mesh.rectilinear([[0,1,3]])
       [] name = "rect" -> {Box2(<<0, 0>>, <<1, 2>>), Box2(<<1, 0>>, <<3, 2>>)}           \* mesh.rectilinear([[0,1,3],[0,2]])
@@ -315,7 +315,7 @@ BaseElems(name) ==
 MeshDim(name) == CASE name = "line" -> 1 [] name \in {"rect", "prod", "tri"} -> 2 [] OTHER -> 3
 X0(el, xi) == VAdd(el.o, LinComb(xi, el.E, Len(el.o)))
 BMat(el) == FromCols(el.E, Len(el.o))                     \* d x0 / d xi
-Children(el) == {MkElem(el.ref, X0(el, c.off), [k \in 1..Len(el.E) |-> LinComb(c.lin[k], el.E, Len(el.o))]) : c \in ChildMaps(el.ref)}
+Children(el) == {MkElem(el.ref, X0(el, c.off), TLCEval([k \in 1..Len(el.E) |-> LinComb(c.lin[k], el.E, Len(el.o))])) : c \in ChildMaps(el.ref)}
 ElemVerts(el) == {X0(el, xi) : xi \in LatPts(el.ref, 1)}
 FacetVerts(el, f) == {X0(el, FacetMap(f, eta)) : eta \in LatPts(f.ft, 1)}
 AllFacets == UNION {{[el |-> el, f |-> f] : f \in RefFacets(el.ref)} : el \in mesh.elems}
@@ -329,16 +329,16 @@ InterfaceFacets == LET A == AllFacets IN {x \in A : \E y \in A : y # x /\ FV(y) 
 M == geom.m
 N == geom.n
 \* d geom / d x0 at x0 (N x M)
-DGeom(x0) == [i \in 1..N |-> [j \in 1..M |-> PEval(PDiff(geom.G[i], j), x0)]]
-GeomAt(x0) == [i \in 1..N |-> PEval(geom.G[i], x0)]
+DGeom(x0) == TLCEval([i \in 1..N |-> TLCEval([j \in 1..M |-> PEval(PDiff(geom.G[i], j), x0)])])
+GeomAt(x0) == TLCEval([i \in 1..N |-> PEval(geom.G[i], x0)])
 \* R = d geom / d ref: the root derivative of the geometry, DG B
 RGrad(el, x0) == IF GmMutant = "no-chain" THEN DGeom(x0) ELSE MMul(DGeom(x0), BMat(el), M)
 NComp == Len(field.P)
-FieldAt(X) == [c \in 1..NComp |-> PEval(field.P[c], X)]
+FieldAt(X) == TLCEval([c \in 1..NComp |-> PEval(field.P[c], X)])
 \* p'(X): the defining gradient (NComp x N)
-DField(X) == [c \in 1..NComp |-> [j \in 1..N |-> PEval(PDiff(field.P[c], j), X)]]
-LapField(X) == [c \in 1..NComp |-> QSum([j \in 1..N |-> PEval(PDiff(PDiff(field.P[c], j), j), X)])]
-Trace(A) == QSum([i \in 1..Len(A) |-> A[i][i]])
+DField(X) == TLCEval([c \in 1..NComp |-> TLCEval([j \in 1..N |-> PEval(PDiff(field.P[c], j), X)])])
+LapField(X) == TLCEval([c \in 1..NComp |-> QSum(TLCEval([j \in 1..N |-> PEval(PDiff(PDiff(field.P[c], j), j), X)]))])
+Trace(A) == QSum(TLCEval([i \in 1..Len(A) |-> A[i][i]]))
 CurlOf(A) == IF Len(A) = 3 /\ N = 3
              THEN <<QSub(A[3][2], A[2][3]), QSub(A[1][3], A[3][1]), QSub(A[2][1], A[1][2])>>
              ELSE <<>>
@@ -361,8 +361,8 @@ InteriorRow(el, xi) ==
         sg |-> IF N = M THEN QSgn(QDet(R)) ELSE 0,
         nv |-> IF N = M + 1 THEN Cross(R) ELSE <<>>,
         \* per-space operators of a product topology with a separable geometry: d p / d X_k and |d X_k / d ref_k|
-        gs |-> IF mesh.name = "prod" /\ geom.sep THEN [c \in 1..NComp |-> [k \in 1..M |-> QDiv(VDot(DField(X)[c], MCol(R, k)), R[k][k])]] ELSE <<>>,
-        js |-> IF mesh.name = "prod" /\ geom.sep THEN [k \in 1..M |-> QMul(R[k][k], R[k][k])] ELSE <<>>]
+        gs |-> IF mesh.name = "prod" /\ geom.sep THEN TLCEval([c \in 1..NComp |-> TLCEval([k \in 1..M |-> QDiv(VDot(DField(X)[c], MCol(R, k)), R[k][k])])]) ELSE <<>>,
+        js |-> IF mesh.name = "prod" /\ geom.sep THEN TLCEval([k \in 1..M |-> QMul(R[k][k], R[k][k])]) ELSE <<>>]
 
 \* a point of a facet of an element
 FacetRow(el, f, eta) ==
@@ -413,14 +413,14 @@ QuadPts(rt, np) ==
         dig(i, k) == (((i - 1) \div GmPow(np, k - 1)) % np) + 1      \* k-th digit of i - 1 in base np, plus one
         u(i, k) == NCX(np, dig(i, k))
         one == QOne
-    IN [i \in 1..GmPow(np, d) |->
+    IN TLCEval([i \in 1..GmPow(np, d) |->
           LET w0 == IF d = 0 THEN one ELSE IF d = 1 THEN w1[dig(i, 1)] ELSE IF d = 2 THEN QMul(w1[dig(i, 1)], w1[dig(i, 2)])
                     ELSE QMul(w1[dig(i, 1)], QMul(w1[dig(i, 2)], w1[dig(i, 3)]))
           IN IF rt = "T" THEN [x |-> <<u(i, 1), QMul(QSub(one, u(i, 1)), u(i, 2))>>, w |-> QMul(w0, QSub(one, u(i, 1)))]
              ELSE IF rt = "K" THEN [x |-> <<u(i, 1), QMul(QSub(one, u(i, 1)), u(i, 2)), QMul(QMul(QSub(one, u(i, 1)), QSub(one, u(i, 2))), u(i, 3))>>,
                                     w |-> QMul(w0, QMul(QMul(QSub(one, u(i, 1)), QSub(one, u(i, 1))), QSub(one, u(i, 2))))]
-             ELSE [x |-> [k \in 1..d |-> u(i, k)], w |-> w0]]
-IntRef(rt, np, H(_)) == LET QP == QuadPts(rt, np) IN QSum([i \in 1..Len(QP) |-> IF QP[i].w[1] = 0 THEN QZero ELSE QMul(QP[i].w, H(QP[i].x))])
+             ELSE [x |-> TLCEval([k \in 1..d |-> u(i, k)]), w |-> w0]])
+IntRef(rt, np, H(_)) == LET QP == QuadPts(rt, np) IN QSum(TLCEval([i \in 1..Len(QP) |-> IF QP[i].w[1] = 0 THEN QZero ELSE QMul(QP[i].w, H(QP[i].x))]))
 \* number of points needed for a polynomial integrand of total degree deg on the cell rt (0: not available)
 NeedPts(rt, deg) == LET d == deg + (IF rt = "T" THEN 1 ELSE IF rt = "K" THEN 2 ELSE 0)
                     IN IF d <= 1 THEN 2 ELSE IF d <= 3 THEN 3 ELSE IF d <= 5 THEN 5 ELSE 0
@@ -463,7 +463,7 @@ NoTot == [vol |-> QZero, int |-> QZero, flux |-> QZero, iflux |-> QZero]
 (***************************************************************************)
 MkMesh(name, level, elems) == [name |-> name, level |-> level, m |-> MeshDim(name), elems |-> elems]
 \* the geometry is regular at every point that is looked at: the measure does not vanish and does not change sign
-Regular(g) == LET RAt(el, xi) == MMul([i \in 1..g.n |-> [j \in 1..g.m |-> PEval(PDiff(g.G[i], j), X0(el, xi))]], BMat(el), g.m)
+Regular(g) == LET RAt(el, xi) == MMul(TLCEval([i \in 1..g.n |-> TLCEval([j \in 1..g.m |-> PEval(PDiff(g.G[i], j), X0(el, xi))])]), BMat(el), g.m)
                   pts(el) == LatPts(el.ref, 1) \cup {RefCentroid(el.ref)}
                   \* the sign of det(d geom / d x0) (domains): the same everywhere
                   sgn(el, xi) == QSgn(QDet(RAt(el, xi))) * QSgn(QDet(BMat(el)))
@@ -506,10 +506,10 @@ Spec == Init /\ [][Next]_vars
 (***************************************************************************)
 (* the property                                                            *)
 (***************************************************************************)
-IdMat(n) == [i \in 1..n |-> GmUnit(n, i)]
-Outer(u, v) == [i \in 1..Len(u) |-> [j \in 1..Len(v) |-> QMul(u[i], v[j])]]
-MSub(A, B) == [i \in 1..Len(A) |-> VSub(A[i], B[i])]
-MScale(c, A) == [i \in 1..Len(A) |-> VScale(c, A[i])]
+IdMat(n) == TLCEval([i \in 1..n |-> GmUnit(n, i)])
+Outer(u, v) == TLCEval([i \in 1..Len(u) |-> TLCEval([j \in 1..Len(v) |-> QMul(u[i], v[j])])])
+MSub(A, B) == TLCEval([i \in 1..Len(A) |-> VSub(A[i], B[i])])
+MScale(c, A) == TLCEval([i \in 1..Len(A) |-> VScale(c, A[i])])
 PointStages == {"interior", "boundary", "interfaces"}
 \* the gradient of p(X) equals p'(X) -- on interior, boundary and interface samples of domains
 GradIsDerivative == (stage \in PointStages /\ N = M) => \A r \in res.rows : r.g = DField(r.X)
